@@ -18,7 +18,12 @@ RULE = ("random DCOPs of 1-6 variables (domains of 1-3 integer values), binary/t
         "scopes, isolated variables, own-cost variables in 0/30/60% of the variables, min/max, stop_cycle 2-7, mgm "
         "or mgm2 (threshold 0-1, three favor modes); real computations under seeded FIFO schedules from 6 policies, "
         "85% run to quiescence; all algorithm randomness replaced by a logged oracle. The oracle recomputes the "
-        "global cost / the per-variable best responses at every cycle boundary of the real run. "
+        "global cost / the per-variable best responses at every cycle boundary of the real run. ~12% of the "
+        "cases form an ORACLE-ONLY stream (mgm, not modelled in Coq): decimal / non-dyadic float costs (k/10, k/3, "
+        "k/7, own costs 0.1/0.2, near-ties at rounding distance); there the oracle sums the exact rational values "
+        "of the floats (no tolerance on sums) and demands: no two constraint-sharing variables move together "
+        "(exactly), cost not worse / no unilateral improvement by more than 1e-9 * scale (the implementation's own "
+        "float summation can differ from the exact gain by rounding). "
         "non-trivial = a cycle that moves (C03) / an idle cycle (C04); distinct = distinct case JSON")
 MODELLED = ("handler models of mgm.py / mgm2.py compared on full event traces, final states and channels; for MGM "
             "in addition the round-level function mgm_next (about which the theorems are) is iterated from the "
@@ -53,12 +58,14 @@ def oracle(c, o):
     if m is None:
         return None
     if m["kind"] == "worse":
-        return "%s %s: global cost goes from %d to %d in cycle %d (movers %s)" % (
+        return "%s %s: global cost goes from %s to %s in cycle %d (movers %s)" % (
             c["algo"], c["mode"], m["before"], m["after"], m["cycle"], m["movers"])
     return "%s: constraint-sharing variables %s both change value in cycle %d" % (c["algo"], m["pair"], m["cycle"])
 
 
 def coq_case(c, o):
+    if c.get("float"):
+        return None          # oracle-only stream (non-integer costs): not modelled
     if c["algo"] == "mgm":
         return "CMgm (%s) (%s)" % (L.coq_mgm_case(c, o), L.coq_mgm_rcase(c, o))
     if c["algo"] == "mgm2":
